@@ -58,7 +58,8 @@ func ruleC08_1(c *Ctx) {
 		return
 	}
 	vh := c.A.F("validationHandler")
-	assume := map[string]bool{"nil:err": true, "cmp:method==GET": true, not304: true}
+	// (no-store on the request or on the 304 forbids the write-back: C06.10)
+	assume := map[string]bool{"nil:err": true, "cmp:method==GET": true, not304: true, "rq.no-store": false, "up.no-store": false}
 	// collaborator nil-guards are constant when the field is written once in the constructor with a non-nil value
 	as := func(a *Atom) (bool, bool) {
 		if v, ok := assume[a.Key]; ok {
@@ -262,6 +263,38 @@ func ruleMergeFilter(c *Ctx, rule string) {
 		c.Fail(rule, "merge-omits-only-framing", "besides hop-by-hop fields the 304 merge withholds only Content-Length", c.P.ShortName(m)+": also withholds "+strings.Join(extraOmitted, ", ")+"; e.g. a 304 carrying `Age: 100` freshens a `max-age=60` response whose age then restarts at 0, and it is served as a fresh HIT")
 	} else {
 		c.Pass(rule, "merge-omits-only-framing", "besides hop-by-hop fields the 304 merge withholds only Content-Length", c.P.ShortName(m))
+	}
+	// the Age of the replaced exchange is dropped from the target on every path (a 304 without Age leaves none; the
+	// entry's timestamps restart at the validation, so the old Age would be counted on top of a fresh clock)
+	{
+		pr := c.An.Prune(m, nil)
+		r := c.An.MustPass(pr, nil, func(in ssa.Instruction) bool {
+			cc := callOf(in)
+			if cc == nil {
+				return false
+			}
+			var key ssa.Value
+			switch {
+			case callIsMethod(cc, "net/http", "Header", "Del"):
+				_, a := recvAndArgs(cc)
+				key = a[0]
+			default:
+				if b, ok := cc.Value.(*ssa.Builtin); ok && b.Name() == "delete" && len(cc.Args) == 2 && isHTTPHeader(cc.Args[0].Type()) {
+					key = cc.Args[1]
+				}
+			}
+			if key == nil {
+				return false
+			}
+			k, ok := constStr(key)
+			return ok && strings.EqualFold(k, "Age")
+		})
+		d := "the stored response's old Age is removed by the merge on every path"
+		if r.OK {
+			c.Pass(rule, "merge-drops-stored-age", d, c.P.ShortName(m))
+		} else {
+			c.Fail(rule, "merge-drops-stored-age", d, c.P.ShortName(m)+": a return is reachable without deleting Age from the stored header; a response first received with `Age: 200, max-age=150` keeps Age 200 after every 304 and is revalidated on every request")
+		}
 	}
 	// every header write in the merge is in a block dominated by a failed membership test on the omitted set
 	var writes []ssa.Instruction
